@@ -625,7 +625,12 @@ def run(ctx):
         scases += [gen_stat_case(rng, kind, th) for _ in range(ctx.n(nq, nt))]
     all_tests = []
     for c in scases:
-        out, probs = run_stat(c)
+        try:
+            out, probs = run_stat(c)
+        except Exception as ex:  # a sampler that raises on a valid state is a concrete failing input
+            ctx.violation(f"{c['kind']}: the real sampler raised on a valid state: {ex!r}",
+                          {"case": c, "finding_key": "sampler-raises"})
+            continue
         tests, definite = stat_tests(c, out, probs)
         for msg in definite:
             ctx.violation(f"{c['kind']}: {msg}", {"case": c, "finding_key": "impossible-outcome" if "probability 0" in msg else "shot-count"})
@@ -677,7 +682,12 @@ def replay(ctx, path):
         oracle_mps_scripted(ctx, c, impl_mps_scripted(c))
     elif k.startswith("stat"):
         from scipy.stats import binomtest
-        out, probs = run_stat(c)
+        try:
+            out, probs = run_stat(c)
+        except Exception as ex:
+            ctx.violation(f"{c['kind']}: the real sampler raised on a valid state: {ex!r}",
+                          {"case": c, "finding_key": "sampler-raises"})
+            return
         tests, definite = stat_tests(c, out, probs)
         for msg in definite:
             ctx.violation(f"{k}: {msg}", {"case": c, "finding_key": "impossible-outcome"})
